@@ -295,6 +295,27 @@ func graphCheck(env *Env, res *Result, c Case, sub int, val interface{}, feats [
 	}
 }
 
+type c04Empty struct{}
+
+type c04Marked struct {
+	M  *c04Empty
+	A  *zoo.GNode
+	L  []interface{}
+	M2 *c04Empty
+	B  *zoo.GNode
+}
+
+type c04Event struct {
+	At   time.Time
+	Log  *c04Log
+	Prev *c04Event
+}
+
+type c04Log struct {
+	Name   string
+	Events []*c04Event
+}
+
 type c04Maps struct {
 	Id   int32
 	Maps []map[string]*c04Maps
@@ -377,6 +398,29 @@ func (c04) Run(c Case, env *Env) Result {
 				q.ByKey = map[string]*zoo.GNode{"p": p}
 			}
 			graphCheck(env, &res, c, j*4+1, &p, []string{"root-behind-a-second-pointer", "nodes=2"}, 2)
+			// an instance of a class WITHOUT fields in front of shared nodes (it takes an ordinal like any object)
+			{
+				p2, q2 := &zoo.GNode{Id: 5}, &zoo.GNode{Id: 6}
+				p2.A, q2.A = q2, p2
+				mk := &c04Marked{M: &c04Empty{}, A: p2, L: []interface{}{&c04Empty{}, q2, p2}, B: p2}
+				if j%2 == 1 {
+					mk.M2 = mk.M
+				}
+				graphCheck(env, &res, c, j*4+1, mk, []string{"fieldless-instance-before-shared-nodes", "nodes=2"}, 2)
+			}
+			// one log of 66000 events, each with a timestamp, a pointer back to the log and one to its predecessor:
+			// three levels deep, however many values of whatever kind have been written before
+			if j == 0 {
+				lg := &c04Log{Name: "log"}
+				var prev *c04Event
+				for i := 0; i < 66000; i++ {
+					ev := &c04Event{At: time.Unix(int64(1500000000+i), 5e6), Log: lg, Prev: prev} // (not a whole second: the compact date form is KF-C02-01)
+					lg.Events = append(lg.Events, ev)
+					prev = ev
+				}
+				res.Max("timestamps_in_one_message", 66000)
+				graphCheck(env, &res, c, 3, lg, []string{"many-timestamps-in-one-message", "nodes=66001"}, 66001)
+			}
 			// ONE map reachable as two elements of a typed list of maps, as two values of a map of maps and as a
 			// map field: one map after decoding
 			if j%2 == 0 {
